@@ -9,7 +9,10 @@ import (
 	"bytes"
 	"encoding/json"
 	"fmt"
+	"io/ioutil"
+	"path/filepath"
 	"regexp"
+	"runtime"
 	"sort"
 	"strings"
 	"sync"
@@ -144,6 +147,14 @@ func (h *B) Pb(arg *pb.PbTest) (interface{}, *erpc.Status) {
 }
 func (h *B) Sync(arg *[]byte) ([]byte, *erpc.Status) { return []byte("sync"), nil }
 
+// Tag answers with its argument and with reply metadata derived from it (concurrent bursts:
+// every caller must get back its own body and its own reply metadata).
+func (h *B) Tag(arg *[]byte) ([]byte, *erpc.Status) {
+	h.SetMeta("X-Tag", string(*arg))
+	h.AddMeta("X-Pad", "p"+string(*arg))
+	return append([]byte(nil), *arg...), nil
+}
+
 type Q struct{ erpc.PushCtx }
 
 func (h *Q) push(canon []byte) *erpc.Status {
@@ -166,7 +177,7 @@ type arrivalPlugin struct {
 
 func (a *arrivalPlugin) Name() string { return a.name }
 func (a *arrivalPlugin) hit(ctx erpc.ReadCtx) *erpc.Status {
-	if strings.HasSuffix(ctx.ServiceMethod(), "/sync") {
+	if strings.HasSuffix(ctx.ServiceMethod(), "/sync") || strings.HasSuffix(ctx.ServiceMethod(), "/tag") {
 		return nil
 	}
 	if a.name == "be-arrivals" {
@@ -186,6 +197,59 @@ func (a *arrivalPlugin) get() int {
 	a.mu.Lock()
 	defer a.mu.Unlock()
 	return a.n
+}
+
+// renamer renames accepted proxy-side sessions on request (an application that keys sessions
+// by user id after login does the same): the caller's address must still be the real IP.
+type renamer struct {
+	mu   sync.Mutex
+	next bool
+	n    int
+}
+
+func (r *renamer) Name() string { return "renamer" }
+func (r *renamer) PostAccept(s erpc.PreSession) *erpc.Status {
+	r.mu.Lock()
+	defer r.mu.Unlock()
+	if r.next {
+		r.n++
+		s.SetID(fmt.Sprintf("user-%d", r.n))
+		r.next = false
+	}
+	return nil
+}
+func (r *renamer) consumed() bool {
+	r.mu.Lock()
+	defer r.mu.Unlock()
+	return !r.next
+}
+func (r *renamer) arm(on bool) {
+	r.mu.Lock()
+	r.next = on
+	r.mu.Unlock()
+}
+
+// noiseFn, when set, runs between the completion of the forwarded call and the plugin's use
+// of the call command (delayed copy): unrelated traffic in the same process that recycles
+// pooled handler contexts.
+var (
+	noiseMu sync.Mutex
+	noiseFn func()
+)
+
+func setNoise(f func()) {
+	noiseMu.Lock()
+	noiseFn = f
+	noiseMu.Unlock()
+}
+
+func runNoise() {
+	noiseMu.Lock()
+	f := noiseFn
+	noiseMu.Unlock()
+	if f != nil {
+		f()
+	}
 }
 
 // proxy's own handlers (methods the proxy serves itself are not forwarded)
@@ -221,6 +285,7 @@ func (f fwdWrap) Call(uri string, arg interface{}, result interface{}, setting .
 	fwdRec.stat = cmd.Status()
 	fwdRec.statText = triple(cmd.Status())
 	fwdRec.mu.Unlock()
+	runNoise()
 	return cmd
 }
 func (f fwdWrap) Push(uri string, arg interface{}, setting ...erpc.MessageSetting) *erpc.Status {
@@ -392,6 +457,7 @@ type obs struct {
 	fwdStat   string
 	fwdIsConn bool // the forwarder returned the shared statConnClosed object
 	timeout   bool
+	renamed   bool   // the proxy application renamed the caller's session
 	barrier   string // why a barrier call failed
 }
 
@@ -418,6 +484,7 @@ type reqCase struct {
 	meta    [][2]string
 	sc      *script
 	fail    string // none closed-local closed-remote dial during
+	noise   bool   // unrelated traffic between the forwarded call's completion and the plugin's use of it
 	expInv  bool   // the backend handler is expected to run (route found and body decodable)
 	decVal  string // library decode table entry
 	marVal  string // library marshal table
@@ -491,6 +558,10 @@ type world struct {
 	phase   string // what the pair is doing right now (reported by the watchdog)
 	aborted bool   // the watchdog gave up on this world; a late goroutine must not touch shared state
 
+	cfg                            *RunCfg
+	ren                            *renamer
+	csessRenamed                   bool
+	nsess                          erpc.Session // unrelated session used for noise traffic
 	bePeer, pxPeer, clPeer, fwPeer erpc.Peer
 	beLis, pxLis                   *Listener
 	pxArr                          *arrivalPlugin
@@ -499,13 +570,13 @@ type world struct {
 	fsess                          erpc.Session // proxy(forward peer) -> backend
 }
 
-func newWorld() *world {
-	w := &world{}
+func newWorld(cfg *RunCfg) *world {
+	w := &world{cfg: cfg, ren: &renamer{}}
 	w.bePeer = erpc.NewPeer(erpc.PeerConfig{}, &arrivalPlugin{name: "be-arrivals"})
 	w.bePeer.RouteCall(new(B))
 	w.bePeer.RoutePush(new(Q))
 	w.pxArr = &arrivalPlugin{name: "px-arrivals"}
-	w.pxPeer = erpc.NewPeer(erpc.PeerConfig{}, w.pxArr, proxy.NewPlugin(chooseFwd))
+	w.pxPeer = erpc.NewPeer(erpc.PeerConfig{}, w.pxArr, w.ren, proxy.NewPlugin(chooseFwd))
 	w.pxPeer.RouteCall(new(P))
 	w.clPeer = erpc.NewPeer(erpc.PeerConfig{})
 	w.fwPeer = erpc.NewPeer(erpc.PeerConfig{})
@@ -515,6 +586,7 @@ func newWorld() *world {
 	w.pxLis, err = Listen(w.pxPeer, "")
 	Must(err)
 	w.dsess = w.dial(w.clPeer, w.beLis.Addr)
+	w.nsess = w.dial(w.clPeer, w.beLis.Addr)
 	w.csess = w.dial(w.clPeer, w.pxLis.Addr)
 	names.set("direct", w.dsess.LocalAddr().String())
 	names.set("caller", w.csess.LocalAddr().String())
@@ -567,8 +639,73 @@ func (w *world) newCaller() {
 	if w.gone() {
 		return
 	}
+	// every other new caller session is renamed by the proxy application
+	w.csessRenamed = w.cfg.Rng.Intn(2) == 0
+	w.ren.arm(w.csessRenamed)
 	w.csess = w.dial(w.clPeer, w.pxLis.Addr)
 	names.set("caller", w.csess.LocalAddr().String())
+	if w.csessRenamed {
+		// the rename happens in the proxy's accept path: wait until it was done
+		WaitUntil(waitLong, func() bool { return w.ren.consumed() || w.gone() })
+	}
+}
+
+// noise sends unrelated calls (with their own request metadata) on a session of the same
+// process, so that pooled handler contexts are taken, overwritten and returned.
+func (w *world) noise() {
+	var r []byte
+	for k := 0; k < 6; k++ {
+		w.nsess.Call("/b/sync", []byte("noise"), &r, erpc.WithAddMeta("X-Noise", "n"), erpc.WithAddMeta("X-Real-IP", "noise"))
+	}
+}
+
+// burst: concurrent proxied calls from several callers, each with its own body; the backend's
+// /b/tag answers with the body and reply metadata derived from it. Returns what went wrong.
+func (w *world) burst(round int) []string {
+	const callers, perCaller = 8, 30
+	var mu sync.Mutex
+	var bad []string
+	var wg sync.WaitGroup
+	setNoise(nil)
+	for g := 0; g < callers; g++ {
+		sess, st := w.clPeer.Dial(w.pxLis.Addr)
+		if !st.OK() {
+			return []string{"dial for the burst failed: " + st.String()}
+		}
+		wg.Add(1)
+		go func(g int, sess erpc.Session) {
+			defer wg.Done()
+			defer sess.Close()
+			for k := 0; k < perCaller; k++ {
+				body := fmt.Sprintf("r%d-g%d-k%d", round, g, k)
+				var result []byte
+				cmd := sess.Call("/b/tag", []byte(body), &result, erpc.WithBodyCodec('s'), erpc.WithAddMeta("X-Req", body))
+				<-cmd.Done()
+				what := ""
+				var m [][2]string
+				if im := cmd.InputMeta(); im != nil {
+					im.VisitAll(func(k, v []byte) { m = append(m, [2]string{string(k), string(v)}) })
+				}
+				switch {
+				case !cmd.Status().OK():
+					what = "status " + triple(cmd.Status())
+				case string(result) != body:
+					what = fmt.Sprintf("result %q", result)
+				case len(m) != 2 || m[0] != [2]string{"X-Tag", body} || m[1] != [2]string{"X-Pad", "p" + body}:
+					what = fmt.Sprintf("reply metadata %q", m)
+				}
+				if what != "" {
+					mu.Lock()
+					if len(bad) < 5 {
+						bad = append(bad, fmt.Sprintf("concurrent proxied call with body %q got %s", body, what))
+					}
+					mu.Unlock()
+				}
+			}
+		}(g, sess)
+	}
+	wg.Wait()
+	return bad
 }
 
 // proxySessionFor returns the proxy-side session whose remote address is the caller's local one.
@@ -577,7 +714,7 @@ func (w *world) proxySessionFor(caller erpc.Session) erpc.Session {
 	want := caller.LocalAddr().String()
 	WaitUntil(waitLong, func() bool {
 		w.pxPeer.RangeSession(func(s erpc.Session) bool {
-			if s.RemoteAddr().String() == want {
+			if s.RemoteAddr().String() == want && s.Health() {
 				found = s
 				return false
 			}
@@ -728,6 +865,10 @@ func (w *world) runProxied(c *reqCase) *obs {
 	if w.gone() {
 		return o
 	}
+	if c.noise {
+		setNoise(w.noise)
+	}
+	o.renamed = w.csessRenamed
 	w.at("proxied: request sent, waiting for the caller to complete")
 	if sc.block != nil {
 		go func() {
@@ -739,6 +880,7 @@ func (w *world) runProxied(c *reqCase) *obs {
 		}()
 	}
 	doRequest(caller, c, o)
+	setNoise(nil)
 	if sc.block != nil {
 		close(sc.block)
 	}
@@ -794,6 +936,7 @@ func (w *world) runProxied(c *reqCase) *obs {
 		if c.fail == "during" || c.fail == "closed-remote" {
 			w.dsess = w.dial(w.clPeer, w.beLis.Addr) // KillConns cut the direct session too
 			names.set("direct", w.dsess.LocalAddr().String())
+			w.nsess = w.dial(w.clPeer, w.beLis.Addr)
 		}
 		w.newForward()
 	}
@@ -1254,13 +1397,13 @@ func human(c *reqCase) string {
 
 func runC19(cfg *RunCfg) {
 	Quiet()
-	w := newWorld()
+	w := newWorld(cfg)
 	st := NewStats("C19", cfg)
-	st.Rule = "pairs = one generated request sent directly to the backend and through the proxy; classes route{raw,str,obj,pb,none,own} x body x codec id{j,s,p,f,unregistered} x request metadata (repeated keys, X-Real-IP absent/present/empty/twice, X-Accept-Body-Codec) ; 15% of the pairs enumerate reply-codec negotiation uniformly: request codec{j,s,p,f,x} x X-Accept-Body-Codec{none, each registered codec, unregistered} x handler{default rule, SetBodyCodec of each codec} x backend status{ok,custom,4xx,5xx,edge,conn-class} x reply{echo,raw,string,obj,pb} x reply codec override x reply metadata ops x mtype{call,push} x failure{none,closed-local,closed-remote,dial,during}; distinct by full rendered input; non-trivial = forwarded route (not own) with non-empty body or metadata or non-OK status or failure"
+	st.Rule = "pairs = one generated request sent directly to the backend and through the proxy; classes route{raw,str,obj,pb,none,own} x body x codec id{j,s,p,f,unregistered} x request metadata (repeated keys, X-Real-IP absent/present/empty/twice, X-Accept-Body-Codec) ; 15% of the pairs enumerate reply-codec negotiation uniformly: request codec{j,s,p,f,x} x X-Accept-Body-Codec{none, each registered codec, unregistered} x handler{default rule, SetBodyCodec of each codec} x backend status{ok,custom,4xx,5xx,edge,conn-class} x reply{echo,raw,string,obj,pb} x reply codec override x reply metadata ops x mtype{call,push} x failure{none,closed-local,closed-remote,dial,during} x caller session renamed by the proxy application (SetID in PostAccept) or not x unrelated traffic injected between the forwarded call's completion and the plugin's use of it (1/4 of the calls); every 150 pairs a burst of 8 concurrent callers x 30 proxied calls with per-call reply metadata; distinct by full rendered input; non-trivial = forwarded route (not own) with non-empty body or metadata or non-OK status or failure"
 	cw := NewCaseWriter(cfg)
 	distinct := DistinctSet{}
 	sent0 := sentinelSnapshot()
-	failedPairs, evaluated := 0, 0
+	failedPairs, evaluated, bursts := 0, 0, 0
 
 	for i := 0; i < cfg.N; i++ {
 		var c *reqCase
@@ -1279,6 +1422,10 @@ func runC19(cfg *RunCfg) {
 			c.fail = "none" // the connection can only be cut mid-call while a call handler runs
 		}
 		c.classes = append(c.classes, "fail:"+c.fail)
+		if !c.push && c.fail == "none" && c.route != "own" && cfg.Rng.Intn(4) == 0 {
+			c.noise = true
+			c.classes = append(c.classes, "delayed-copy:unrelated-traffic-before-the-plugin-reads-the-reply")
+		}
 		for _, cl := range c.classes {
 			st.Count(cl)
 		}
@@ -1325,12 +1472,18 @@ func runC19(cfg *RunCfg) {
 		case res = <-resCh:
 		case <-time.After(pairTimeout):
 			st.Fail(i, "caller-never-completes", fmt.Sprintf("the pair did not finish within %s; stuck at: %s", pairTimeout, w.where()), h)
+			dumpStacks(cfg, i)
 			w.abort()
-			w = newWorld()
+			w = newWorld(cfg)
 			failedPairs++
 			continue
 		}
 		d, p := res.d, res.p
+		if p.renamed {
+			st.Count("caller-session:renamed-by-the-proxy-application")
+		} else {
+			st.Count("caller-session:default-id")
+		}
 		sent1 := sentinelSnapshot()
 
 		// ---- property oracle on the implementation alone ----
@@ -1453,6 +1606,23 @@ func runC19(cfg *RunCfg) {
 		if len(st.Samples) < 6 {
 			st.Samples = append(st.Samples, h+" => direct "+d.stat+" proxied "+p.stat)
 		}
+		if i%150 == 149 {
+			// true concurrency: several callers at once through the proxy
+			bursts++
+			bch := make(chan []string, 1)
+			go func(w *world, round int) { bch <- w.burst(round) }(w, bursts)
+			select {
+			case bad := <-bch:
+				for _, b := range bad {
+					st.Fail(i, "concurrent-reply-mix", b, "burst of 8 concurrent callers x 30 proxied calls of /b/tag")
+				}
+			case <-time.After(3 * pairTimeout):
+				st.Fail(i, "caller-never-completes", "a burst of concurrent proxied calls did not finish", "burst of 8 concurrent callers x 30 proxied calls of /b/tag")
+				w.abort()
+				w = newWorld(cfg)
+			}
+			st.Count("burst:8x30-concurrent-proxied-calls")
+		}
 		if len(st.OracleFailures) > failuresBefore {
 			failedPairs++
 		}
@@ -1460,6 +1630,13 @@ func runC19(cfg *RunCfg) {
 	st.Evaluations = evaluated
 	st.DistinctNontrivial = len(distinct)
 	st.Write(cfg, cw)
+}
+
+// dumpStacks keeps the goroutine stacks of a stuck pair next to the case file.
+func dumpStacks(cfg *RunCfg, i int) {
+	buf := make([]byte, 1<<22)
+	n := runtime.Stack(buf, true)
+	ioutil.WriteFile(filepath.Join(cfg.Out, fmt.Sprintf("stuck-%d.txt", i)), buf[:n], 0o644)
 }
 
 func clip(b []byte) []byte {
